@@ -42,7 +42,7 @@ Theorem activity_nonneg : forall rows, the_rows = Some rows -> forall r, In r ro
   activity_row_with sb r (r_A r) mass env t = OAct br a m lam spec ->
   distinct_rates (chain_of br) (Q2R (row_flux r env)) (Q2R (fluence env)) (Q2R (row_xs r env)) (Q2R (row_xs2 r env))
                  (Q2R (r_thalf r)) (Q2R (r_thalf_par r)) ->
-  0 <= evalR no_env_R spec /\ (br <> BSmall -> 0 <= evalR no_env_R a).
+  0 <= evalR ln2_env_R spec /\ (br <> BSmall -> 0 <= evalR ln2_env_R a).
 Proof.
   intros rows E r Hin sb mass env t br a m lam spec (Hm & Hf & Hfr & Ht) H Hd.
   pose proof (rows_all_ok rows E r Hin) as Hok. unfold row_ok in Hok.
@@ -66,7 +66,7 @@ Proof.
       assert (Q2R (fast_ratio env) <> 0) by (intro Z'; apply Z; apply eqR_Qeq; rewrite Z', Q2R_0; reflexivity).
       apply Rmult_le_pos; [assumption|]. left. apply Rinv_0_lt_compat. lra. }
   destruct (model_spec_is_chain_solution _ _ _ _ _ _ _ _ _ _ _ H) as [Hs _].
-  assert (Hspec : 0 <= evalR no_env_R spec).
+  assert (Hspec : 0 <= evalR ln2_env_R spec).
   { rewrite Hs. apply activity_end_nonneg; try assumption.
     destruct br; simpl in *; try assumption.
     - (* b: the row is a 'b' row, so its parent half-life is positive and differs *)
@@ -111,8 +111,8 @@ Theorem small_branch_refuted :
   exists r amass mass env t a m lam spec,
     physical mass env t /\
     activity_row_with true r amass mass env t = OAct BSmall a m lam spec /\
-    0 < evalR no_env_R spec /\
-    evalR no_env_R a > (149 / 100) * evalR no_env_R spec.
+    0 < evalR ln2_env_R spec /\
+    evalR ln2_env_R a > (149 / 100) * evalR ln2_env_R spec.
 Proof.
   exists w_row, 9%Z, 1%Q, (mkEnv 100000 0 0), 1%Q, w_a.
   assert (Ho : exists m lam, w_out = OAct BSmall w_a m lam w_spec).
